@@ -41,15 +41,50 @@ func (d c10Dir) serialized(idx int) runner.SerializedDirective {
 	}
 }
 
-// c10Glob: the documented glob semantics for the names that occur here
-// (exact name, trailing *), case-insensitive.
+// c10Glob: shell-glob semantics for check names, case-insensitive: '*'
+// matches any run of characters, '?' exactly one, '[a-z]' / '[abc]' one
+// character of the class.
 func c10Glob(pat, cat string) bool {
-	pat, cat = strings.ToLower(pat), strings.ToLower(cat)
-	if strings.HasSuffix(pat, "*") {
-		return strings.HasPrefix(cat, pat[:len(pat)-1])
-	}
-	return pat == cat
+	return c10GlobRec(strings.ToLower(pat), strings.ToLower(cat))
 }
+
+func c10GlobRec(pat, s string) bool {
+	if pat == "" {
+		return s == ""
+	}
+	switch pat[0] {
+	case '*':
+		for k := 0; k <= len(s); k++ {
+			if c10GlobRec(pat[1:], s[k:]) {
+				return true
+			}
+		}
+		return false
+	case '?':
+		return s != "" && c10GlobRec(pat[1:], s[1:])
+	case '[':
+		end := strings.IndexByte(pat, ']')
+		if end < 0 || s == "" {
+			return false
+		}
+		class := pat[1:end]
+		ok := false
+		for i := 0; i < len(class); i++ {
+			if i+2 < len(class) && class[i+1] == '-' {
+				if class[i] <= s[0] && s[0] <= class[i+2] {
+					ok = true
+				}
+				i += 2
+			} else if class[i] == s[0] {
+				ok = true
+			}
+		}
+		return ok && c10GlobRec(pat[end+1:], s[1:])
+	}
+	return s != "" && pat[0] == s[0] && c10GlobRec(pat[1:], s[1:])
+}
+
+func c10IsGlob(n string) bool { return strings.ContainsAny(n, "*?[") }
 
 func c10Diag(file string, line int, cat string) diagnostic {
 	var d diagnostic
@@ -111,7 +146,7 @@ func c10Check(diags []diagnostic, dirs []c10Dir, enabled map[string]bool) {
 			onlyDisabledOrU1000 := true
 			seenU1000 := false
 			for _, n := range names {
-				if strings.HasSuffix(n, "*") {
+				if c10IsGlob(n) {
 					uselessUnspecified = true // glob names: outside the claim for this clause
 				}
 				if strings.ToLower(n) == "u1000" {
@@ -176,7 +211,7 @@ func c10Check(diags []diagnostic, dirs []c10Dir, enabled map[string]bool) {
 var c10Cats = []string{"SA1000", "S1000", "ST1000"}
 var c10Files = []string{"a.go", "b.go"}
 var c10Cmds = []string{"ignore", "file-ignore"}
-var c10First = []string{"SA1000", "sa1000", "SA*", "S*", "*", "ST1000", "U1000", "SA1001", "XX9999"}
+var c10First = []string{"SA1000", "sa1000", "SA*", "S*", "*", "ST1000", "U1000", "SA1001", "XX9999", "SA100?", "S[A-T]1000", "S*0", "?1000", "S[AT]100[0-5]"}
 var c10Second = []string{"", ",SA1000", ",U1000", ",ST1000", ",XX9999"}
 
 // one problem x one directive, full cross product
